@@ -33,6 +33,7 @@ case_strategy = st.fixed_dictionaries({
     "rows": st.integers(16, 160), "cols": st.integers(16, 128),
     "ndim": st.sampled_from([2, 2, 2, 3, 4]), "planes": st.integers(1, 3), "cube_index": st.integers(0, 2),
     "bscale": st.sampled_from([None, None, None, 2.0, 0.5, -1.5]),
+    "bzero": st.sampled_from([None, None, None, None, 5.0, -100.0]),      # physical = BZERO + BSCALE * stored
     "kind": st.sampled_from(["gauss", "gauss", "uniform", "constant"]),
     "seed": st.integers(0, 2 ** 31 - 1),
     "dc": st.sampled_from([0.0, 0.0, 100.0, 1000.0, -3000.0, 1e4]),
@@ -77,7 +78,8 @@ def make_image(c):
 def write_image(c, img, path):
     """write the plane (as physical values) into a 2-D/3-D/4-D float64 file, optionally with BSCALE"""
     bs = c["bscale"]
-    raw = img / bs if bs else img
+    bz = c.get("bzero")
+    raw = (img - (bz or 0.0)) / (bs or 1.0)
     planes = c["planes"] if c["ndim"] > 2 else 1
     ci = min(c["cube_index"], planes - 1)
     rng = np.random.default_rng(c["seed"] + 1)
@@ -90,9 +92,12 @@ def write_image(c, img, path):
                  ("CRPIX1", img.shape[1] / 2.0), ("CRPIX2", img.shape[0] / 2.0), ("CDELT1", -0.005), ("CDELT2", 0.005)):
         hdu.header[k] = v
     hdu.writeto(path, overwrite=True)
-    if bs:
+    if bs or bz is not None:
         with fits.open(path, mode="update", do_not_scale_image_data=True) as hl:
-            hl[0].header["BSCALE"] = bs
+            if bs:
+                hl[0].header["BSCALE"] = bs
+            if bz is not None:
+                hl[0].header["BZERO"] = bz
     # the oracle's "image" is what astropy reads for that plane
     data = fits.getdata(path)
     data = np.asarray(data, dtype=np.float64)
@@ -181,6 +186,7 @@ def check_case(c):
         if out_base is not None:
             from AegeanTools import fits_tools
             bs = c["bscale"] or 1.0
+            bz = c.get("bzero") or 0.0
             for name, arr in (("bkg", bkg), ("rms", rms)):
                 fn = "%s_%s.fits" % (out_base, name)
                 if not os.path.exists(fn):
@@ -189,7 +195,7 @@ def check_case(c):
                 if files == "plain":
                     with fits.open(fn, do_not_scale_image_data=True) as hl:
                         raw = np.asarray(hl[0].data, dtype=np.float64)
-                    if raw.shape != arr.shape or not np.allclose(raw * bs, arr, rtol=2e-6, atol=1e-30, equal_nan=True):
+                    if raw.shape != arr.shape or not np.allclose(raw * bs + bz, arr, rtol=2e-6, atol=1e-30 + 4e-7 * abs(bz), equal_nan=True):
                         res.bad("output-file-values", "%s: %s does not hold the returned %s map (/BSCALE)" % (
                             what, os.path.basename(fn), name), **tags)
                 else:
@@ -238,6 +244,7 @@ def check_case(c):
                 argv.append("--nomask")
             rc = bane_cli.main(argv)
             bs = c["bscale"] or 1.0
+            bz = c.get("bzero") or 0.0
             for name, arr in (("bkg", bkg), ("rms", rms)):
                 fn = os.path.join(d, "im_%s.fits" % name)
                 if rc != 0 or not os.path.exists(fn):
@@ -246,7 +253,7 @@ def check_case(c):
                     break
                 with fits.open(fn, do_not_scale_image_data=True) as hl:
                     raw = np.asarray(hl[0].data, dtype=np.float64)
-                if raw.shape != arr.shape or not np.allclose(raw * bs, arr, rtol=2e-6, atol=1e-30, equal_nan=True):
+                if raw.shape != arr.shape or not np.allclose(raw * bs + bz, arr, rtol=2e-6, atol=1e-30 + 4e-7 * abs(bz), equal_nan=True):
                     res.bad("cli-maps-differ", "%s: the %s map written by the BANE command line differs from filter_image's" % (
                         what, name), **tags)
                     break
@@ -310,6 +317,8 @@ def check_case(c):
         res.label("ndim%d" % c["ndim"], "multi-stripe" if multi else "single-stripe")
         if c["bscale"]:
             res.label("bscale")
+        if c.get("bzero") is not None:
+            res.label("bzero")
         if nonfin.any():
             res.label("blanks")
     finally:
